@@ -497,7 +497,7 @@ def model_floats_to_bits(d):
     from fractions import Fraction
 
     def conv(m):
-        neg, mant, ex = m.group(1) == "-", int(m.group(2), 16), int(m.group(3).replace("0x", ""), 16) * (-1 if m.group(3).startswith("-") else 1)
+        neg, mant, ex = m.group(1) == "-", int(m.group(2), 16), int(m.group(3), 16)     # int("-0x190", 16) == -400
         if mant == 0:
             f = 0.0
         elif ex > 400:
@@ -572,10 +572,9 @@ def build_cases(tier, rng):
         add('{ "n" : ' + t + " , \"m\":\n" + t + "\n}", ("obj", [("n", v), ("m", v)]), "number")
     for _ in range(300 if quick else 20000):
         t = gen_number(rng)
-        add(rng.choice(["%s", "[%s]", '{"a":%s}', "[ %s ,%s]" if False else "[ %s ]", '{"a": %s}', "\n%s\n"]) % t,
-            None, "number")
+        add(rng.choice(["%s", "[%s]", '{"a":%s}', "[ %s ]", '{"a": %s}', "\n%s\n", '{"a"\t:\n%s\r\n}', "[0,%s\t]"]) % t, None, "number")
     # 4. random trees
-    n_trees = 700 if quick else 60000
+    n_trees = 700 if quick else 25000
     for i in range(n_trees):
         d = rng.choice([1, 2, 3, 4, 6, 8]) if quick else rng.choice([1, 2, 3, 4, 6, 8, 12, 20, 40])
         v = gen_value(rng, d, [rng.choice([6, 15, 40, 120])])
@@ -692,6 +691,11 @@ def check_C13(tier, seed):
         spec_toks = run_mx(["tokens"], pf, tag="C13")
         spec_exp = run_mx(["expect"], pf, tag="C13")
         verd = run_mx(["oracle"], [p + " @@ " + r for p, r in zip(pf, impl)], tag="C13")
+        # the class predicate used for routing is the one of the Coq statement (Spec/Json.v colon_tab)
+        coltab = run_mx(["coltab"], lines, tag="C13")
+        for i, c in enumerate(cases):
+            if coltab[i] != ("1" if has_colon_tab(c["text"]) else "0"):
+                res.add_tie_break("class predicate: Python has_colon_tab != extracted colon_tab Tout", case=c["text"][:300], coq=coltab[i])
         verdicts = {}
         tab_seen = tab_rejected = 0
         tab_other = []
